@@ -56,7 +56,10 @@ func (f FloatSchema) Units() *UnitsDefinition {
 func (f FloatSchema) Unserialize(data any) (any, error) {
 	unserialized, err := floatInputMapper(data, f.UnitsValue)
 	if err != nil {
-		return 0, err
+		return 0, &ConstraintError{
+			Message: fmt.Sprintf("'%v' (type %T) is not a valid floating point number", data, data),
+			Cause:   err,
+		}
 	}
 	return unserialized, f.Validate(unserialized)
 }
